@@ -11,7 +11,7 @@
      WRITER_BIT is cleared only by write_unlock, the two downgrades of a write guard and the cancellation of
      the announced writer (RawWrite / RawUpgrade drop) — pinned by the site lists of Tie_Raw / Tie_RwFutures;
      with the counting invariant (C02/C11: state = 2*(R+U) + W + H) the bit is set exactly while W + H = 1.
-   - readers admitted earlier are unaffected: their guards stay valid (C02), and the writer completes when the
+   - readers let in earlier are unaffected: their guards stay valid (C02), and the writer completes when the
      last of them leaves (C06 (d)). *)
 From AL Require Import Base Api Mutex RwLock RwApi RwWord RwInv RwLive.
 From AL.Tie Require Tie_Raw Tie_RwLock Tie_RwFutures Tie_Mutex.
